@@ -231,7 +231,14 @@ class Executor:
             st.heap[key] = [z3.Const("H0_%s_%s_%d" % (cls, field, i), z3.ArraySort(z3.IntSort(), s))
                             for i, s in enumerate(flat(k))]
             self.assume_closed_heap(key, k, st.heap[key])
+            self.assume_list_lengths(k, st.heap[key])
         return st.heap[key]
+
+    def assume_list_lengths(self, k, arrs):
+        """lengths of lists stored in a field are non-negative (holds of every list; stated for havoced heaps too)"""
+        if isinstance(k, KList):
+            r = z3.Int(uid("llr"))
+            self.ctx.hyps.append(z3.ForAll([r], z3.Select(arrs[0], r) >= 0))
 
     def assume_closed_heap(self, key, k, arrs):
         """A-ALLOC for the initial heap: every reference stored in a field at entry denotes an object allocated
@@ -499,6 +506,9 @@ class Executor:
             if i < len(node.values) - 1:
                 t = truth(v)
                 g = t if isinstance(node.op, ast.And) else not_(t)
+                if z3.is_false(g) or (not z3.is_true(g) and z3.is_false(z3.simplify(g))):
+                    # statically short-circuited: the remaining operands are never evaluated
+                    break
                 conds.append(g)
                 if not self.spec_mode:
                     cur = st.copy(and_(cur.pc, g))
@@ -544,6 +554,9 @@ class Executor:
         obj = self.eval(node.value, st)
         if isinstance(obj.kind, KFunc) and obj.py and obj.py[0] == "module":
             return Val(FUNC, [], py=("builtin", obj.py[1] + "." + node.attr))
+        if isinstance(obj.kind, KFunc) and obj.py and obj.py[0] == "builtin" and obj.py[1] == "sys.float_info" and node.attr == "max":
+            self.ctx.math_used.add("big")
+            return vfloat(mathlib.BIG)
         if isinstance(obj.kind, KFunc) and obj.py and obj.py[0] == "func" and node.attr == "__name__":
             return strings.lit(obj.py[1].name)
         if isinstance(obj.kind, KRef):
@@ -674,7 +687,8 @@ class Executor:
                     finally:
                         self.bound = saved
                     return and_(*parts) if universal else or_(*parts)
-        saved = dict(self.bound)
+        saved = self.bound
+        self.bound = dict(saved)      # never mutate the dict in place: inlined / contracted callees share it
         vars_, guards = [], []
         try:
             for comp in gen.generators:
@@ -878,6 +892,7 @@ class Executor:
             sub.heap_arrays(post, cls, field)
             post.heap[(cls, field)] = [z3.Const(uid("H_%s_%s" % (cls, field)), z3.ArraySort(z3.IntSort(), s))
                                        for s in flat(k)]
+            self.assume_list_lengths(k, post.heap[(cls, field)])
         for (cls, field), k in self.ctx.reg.fields.items():
             if cls in spec.fresh and (cls + "." + field) not in spec.modifies:
                 olda = sub.heap_arrays(post, cls, field)
@@ -945,10 +960,23 @@ class Executor:
             key = ast.unparse(node).splitlines()[0].strip()
         except Exception:
             return
-        seen = self.__dict__.setdefault("_at_seen", {})
-        seen[key] = seen.get(key, 0) + 1
-        hints = self.spec.at.get("%s#%d" % (key, seen[key]))
-        if hints is None and seen[key] == 1:
+        occ = self.__dict__.get("_at_occ")
+        if occ is None:
+            # occurrence number of each statement among those with the same text, in source order
+            occ, cnt = {}, {}
+            for n in sorted((x for x in ast.walk(self.fi.node) if isinstance(x, ast.stmt)),
+                            key=lambda x: (x.lineno, x.col_offset)):
+                if True:
+                    try:
+                        k = ast.unparse(n).splitlines()[0].strip()
+                    except Exception:
+                        continue
+                    cnt[k] = cnt.get(k, 0) + 1
+                    occ[id(n)] = cnt[k]
+            self._at_occ = occ
+        nth = occ.get(id(node), 1)
+        hints = self.spec.at.get("%s#%d" % (key, nth))
+        if hints is None and nth == 1:
             hints = self.spec.at.get(key)
         if not hints:
             return
@@ -957,6 +985,17 @@ class Executor:
             name, text = (h[0], h[1]) if isinstance(h, tuple) else ("#", h)
             if isinstance(text, str) and text.startswith("use "):
                 self.ctx.assume(st, self.eval_spec(text[4:], st))
+                continue
+            if isinstance(text, str) and text.startswith("ghost "):
+                # ghost assignment `ghost NAME = EXPR`: specification-only state, never read by the code
+                gname, gexpr = text[6:].split("=", 1)
+                saved = self.spec_mode
+                self.spec_mode = True
+                try:
+                    gv = self.eval(ast.parse(gexpr.strip(), mode="eval").body, st)
+                finally:
+                    self.spec_mode = saved
+                self.assign(ast.Name(id=gname.strip(), ctx=ast.Store()), gv, st, node)
                 continue
             cl = self.eval_spec(text, st)
             self.ctx.oblige(st, "have:%s" % name, cl, "hint", getattr(node, "lineno", None))
